@@ -34,6 +34,7 @@ trusted('np.isclose(x, 0.0) <=> |x| <= 1e-8 (numpy default atol, b = 0)')
 trusted('np.isnan reads the NaN flag of a data-handler price; arithmetic on a possibly-NaN value is a definedness obligation')
 trusted('builtin round(x) / round(x, 2): uninterpreted R0/R2 with |R0(x)-x| <= 1/2, R0 integer-valued, |R2(x)-x| <= 0.005, both odd functions')
 trusted('sum() over a finite map = SUM(dom, g) with the definitional unfolding SUM(empty) = 0, SUM(D + {k}, g) = SUM(D, g) + g(k) for k not in D, instantiated by the engine')
+trusted('np.zeros(n) is an array of n zeros indexed 0..n-1; Series.iloc[t] reads the t-th observation; len(index) is the number of observations')
 trusted('machine floating point is treated as mathematical real arithmetic; Python int as Z')
 
 
@@ -42,6 +43,13 @@ class NpShim:
 
     def __getattr__(self, name):
         return getattr(_np, name)
+
+    @staticmethod
+    def zeros(n, *a, **k):
+        if isinstance(n, SymNum):
+            from . import heap
+            return heap.SymArr(z3.K(z3.IntSort(), z3.RealVal(0)), n)
+        return _np.zeros(n, *a, **k)
 
     @staticmethod
     def floor(x):
@@ -202,6 +210,16 @@ def vc_min(*a, **k):
     return builtins.min(*a, **k)
 
 
+def vc_range(*a):
+    if any(isinstance(x, SymNum) for x in a):
+        from . import heap
+        lo, hi = (0, a[0]) if len(a) == 1 else (a[0], a[1])
+        if len(a) > 2:
+            raise Unmodelled('range with a step over symbolic bounds')
+        return heap.SymRange(lo, hi)
+    return builtins.range(*a)
+
+
 def vc_isinstance(x, t):
     return builtins.isinstance(x, t)
 
@@ -274,6 +292,14 @@ class _PdShim:
     def __getattr__(self, n):
         import pandas
         return getattr(pandas, n)
+
+    @staticmethod
+    def DataFrame(*a, **k):
+        from . import heap
+        if any(isinstance(x, heap.SymIndex) for x in list(a) + list(k.values())):
+            raise heap.StopHere('pandas frame built from a symbolic index')
+        import pandas
+        return pandas.DataFrame(*a, **k)
 
     @staticmethod
     def Timestamp(x, *a, tz=None, **k):
@@ -379,6 +405,6 @@ def module_shadows():
     from . import heap
     return dict(np=np, int=vc_int, float=vc_float, str=vc_str, type=vc_type, print=vc_print, len=vc_len,
                 sum=vc_sum, any=vc_any, all=vc_all, sorted=vc_sorted, list=vc_list, set=vc_set, dict=vc_dict,
-                enumerate=vc_enumerate, bool=vc_bool, max=vc_max, min=vc_min,
+                enumerate=vc_enumerate, bool=vc_bool, max=vc_max, min=vc_min, range=vc_range,
                 datetime=datetime, uuid=uuid, logging=logging, copy=copy, queue=heap.queue, pd=pd,
                 deque=heap.vc_deque, OrderedDict=heap.vc_ordered_dict)
